@@ -1,5 +1,5 @@
 (* C05 property theorems: statements + `exact lemma` only. *)
-From CJ Require Import Common.Base C05.Model C05.Proofs C05.Sched.
+From CJ Require Import Common.Base C05.Model C05.Proofs C05.Sched C05.ModelTcp C05.ProofsTcp.
 
 (* One direction of the relay delivers exactly the three-line specification [ideal]: the data of
    every Read up to and including the first one that carries an error, cut only by the first
@@ -133,3 +133,91 @@ Theorem C05_relay_counts_at_every_moment :
     counted (th_acc (down c)) = N.of_nat (length (delivered (th_acc (down c)))).
 Proof. exact relay_counts_always. Qed.
 Print Assumptions C05_relay_counts_at_every_moment.
+
+(* ---------------- real TCP: the socket's send queue and the close mode (C05/ModelTcp.v) ----------------
+   halfPipe counts a byte when dst.Write accepted it, i.e. when it sits in the socket's send queue.
+   Whether it reaches the peer is decided by the shutdown calls AND THEIR ARGUMENTS. *)
+
+(* the pinned close sequence  SetLinger(l), l > 0; Close : every byte the station wrote before the
+   close reaches a peer that drains the queue before the linger time is over — whatever the
+   chunking of the writes, however deliveries and seconds interleave before and after — and the
+   peer's stream then ends with a clean end of stream *)
+Theorem C05_tcp_linger_close_delivers_everything :
+  forall l pre es,
+    no_shutdown pre = true ->
+    drained_before es (S l) (length (s_q (srun sock0 pre))) = true ->
+    let f := srun sock0 (pre ++ [Op (SSetLinger (S l)); Op SClose] ++ es) in
+    s_got f = written pre /\ s_ph f = Ended PEof.
+Proof. exact tcp_linger_close_delivers_all. Qed.
+Print Assumptions C05_tcp_linger_close_delivers_everything.
+
+(* the variant  SetLinger(0); Close : the peer gets exactly what had arrived before the close —
+   everything still queued is lost — and its stream ends with a reset, never with end of stream,
+   whatever happens afterwards *)
+Theorem C05_tcp_linger0_close_discards_queue :
+  forall pre es,
+    no_shutdown pre = true ->
+    let s1 := srun sock0 pre in
+    let f := srun sock0 (pre ++ [Op (SSetLinger 0); Op SClose] ++ es) in
+    s_got f = s_got s1 /\ s_ph f = Ended PReset /\ written pre = s_got f ++ s_q s1.
+Proof. exact tcp_linger0_close_discards. Qed.
+Print Assumptions C05_tcp_linger0_close_discards_queue.
+
+Theorem C05_linger0_variant_refuted :
+  forall pre es,
+    no_shutdown pre = true -> s_q (srun sock0 pre) <> [] ->
+    let f := srun sock0 (pre ++ ops_events [CSetLinger 0; CClose] ++ es) in
+    s_got f <> written pre /\ s_ph f = Ended PReset.
+Proof. exact linger0_variant_refuted. Qed.
+Print Assumptions C05_linger0_variant_refuted.
+
+(* CloseWrite: the queue is delivered, then FIN, without a time limit; the descriptor stays open *)
+Theorem C05_tcp_closewrite_delivers_everything :
+  forall pre es,
+    no_shutdown pre = true -> env_only es = true ->
+    (length (s_q (srun sock0 pre)) <= delivered_total es)%nat ->
+    let f := srun sock0 (pre ++ [Op SCloseWrite] ++ es) in
+    s_got f = written pre /\ s_ph f = Ended PEof /\ s_fd_closed f = false.
+Proof. exact tcp_closewrite_delivers_all. Qed.
+Print Assumptions C05_tcp_closewrite_delivers_everything.
+
+(* the relay closes every connection from both directions (and once more from Proxy): on a socket
+   all those closeConn sequences act like ONE  SetLinger(linger_secs); Close *)
+Theorem C05_tcp_repeated_close_is_one_close :
+  forall n s,
+    srun s (ops_events (concat (repeat (close_ops KTcp) (S n)))) =
+    srun s [Op (SSetLinger linger_secs); Op SClose].
+Proof. exact repeated_close_ops. Qed.
+Print Assumptions C05_tcp_repeated_close_is_one_close.
+
+(* "forwards faithfully" judged AT THE PEER, for all scripts and all schedules of the relay: in a
+   finished run whose covert connection is a TCP socket, the bytes the upload direction delivered
+   (= ideal of what its calls returned, theorem C05_relay_delivers_ideal) are exactly what a covert
+   peer receives that drains the socket within the linger time; their number is the reported byte
+   count; then comes a clean end of stream.  The socket's shutdown calls are the relay's own log
+   [opsB c], arguments included. *)
+Theorem C05_relay_tcp_covert_peer_receives_counted :
+  forall ka g0 su sd s pre es,
+    let c := run (init_cfg_k ka KTcp g0 su sd) s in
+    finished c = true ->
+    no_shutdown pre = true -> written pre = delivered (th_acc (up c)) ->
+    drained_before es linger_secs (length (s_q (srun sock0 pre))) = true ->
+    let f := srun sock0 (pre ++ ops_events (opsB c) ++ es) in
+    s_got f = delivered (th_acc (up c)) /\
+    N.of_nat (length (s_got f)) = counted (th_acc (up c)) /\
+    s_ph f = Ended PEof.
+Proof. exact relay_tcp_covert_peer_gets_counted. Qed.
+Print Assumptions C05_relay_tcp_covert_peer_receives_counted.
+
+Theorem C05_relay_tcp_client_peer_receives_counted :
+  forall kb g0 su sd s pre es,
+    let c := run (init_cfg_k KTcp kb g0 su sd) s in
+    finished c = true ->
+    no_shutdown pre = true -> written pre = delivered (th_acc (down c)) ->
+    drained_before es linger_secs (length (s_q (srun sock0 pre))) = true ->
+    let f := srun sock0 (pre ++ ops_events (opsA c) ++ es) in
+    s_got f = delivered (th_acc (down c)) /\
+    N.of_nat (length (s_got f)) = counted (th_acc (down c)) /\
+    s_ph f = Ended PEof.
+Proof. exact relay_tcp_client_peer_gets_counted. Qed.
+Print Assumptions C05_relay_tcp_client_peer_receives_counted.
